@@ -16,13 +16,16 @@ Record sres := mkSres {
   s_rse : option (list (id * option Q));
   s_minsucc_iter : list bool;                           (* minimization_successful_iterations, per step *)
   s_eval : list bool;                                   (* evaluation, per step *)
-  s_nerr : nat; s_nwarn : nat                           (* len(log.errors), len(log.warnings) *)
+  s_nerr : nat; s_nwarn : nat;                          (* len(log.errors), len(log.warnings) *)
+  s_runtime_total : option Q;
+  s_est_runtime_iter : option (list (option Q))         (* estimation_runtime_iterations, per step *)
 }.
 
 Record srow := mkSrow {
   sr_name : id; sr_step : option nat; sr_evaluation : option bool;
   sr_minsucc : bool; sr_nerr : nat; sr_nwarn : nat; sr_ofv : option Q;
-  sr_params : list (id * option Q * option Q * option Q)      (* name, estimate, SE, RSE (NaN when absent) *)
+  sr_params : list (id * option Q * option Q * option Q);     (* name, estimate, SE, RSE (NaN when absent) *)
+  sr_runtime_total : option Q; sr_est_runtime : option Q
 }.
 
 Definition last_of_step {A} (step : nat) (l : list (nat * A)) : option A :=
@@ -57,11 +60,19 @@ Definition summarize_step (name : id) (r : sres) (i : option nat) : res srow :=
             | Some t => match last_of_step (match step with Some s => s | None => 0 end) t with
                         | Some row => Ok row | None => Err EKey end
             end in
-  match minsucc, ofv, pe with
-  | None, _, _ => Err EInternal                 (* IndexError *)
-  | _, Err e, _ => Err e
-  | _, _, Err e => Err e
-  | Some ms, Ok o, Ok row =>
+  (* _get_estimation_runtime(res, i): runtime_total without a table, else .iloc[i] (i = -1: the last row) *)
+  let ert : res (option Q) :=
+    match s_est_runtime_iter r with
+    | None => Ok (s_runtime_total r)
+    | Some l => match (match step with Some s => nth_error l (s - 1) | None => nth_error (rev l) 0 end) with
+                | Some v => Ok v | None => Err EInternal end
+    end in
+  match minsucc, ofv, ert, pe with
+  | None, _, _, _ => Err EInternal                 (* IndexError *)
+  | _, Err e, _, _ => Err e
+  | _, _, Err e, _ => Err e
+  | _, _, _, Err e => Err e
+  | Some ms, Ok o, Ok rt, Ok row =>
       let look (t : option (list (id * option Q))) (n : id) : res (option Q) :=
         match t with
         | None => Ok None
@@ -82,7 +93,7 @@ Definition summarize_step (name : id) (r : sres) (i : option nat) : res srow :=
       | Err e => Err e
       | Ok ps => Ok (mkSrow name (match i with Some k => Some (S k) | None => None end)
                             (match i with Some k => nth_error (s_eval r) k | None => None end)
-                            ms (s_nerr r) (s_nwarn r) o ps)
+                            ms (s_nerr r) (s_nwarn r) o ps (s_runtime_total r) rt)
       end
   end.
 
@@ -112,8 +123,31 @@ Definition summarize (all_steps : bool) (entries : list (option (id * option sre
     | _ => collect per
     end.
 
+(* ---- summarize_errors_from_entries: one row per log entry, indexed (model, category, position in the model's log),
+   DataFrame.sort_index() = lexicographic order of that index.  Model names are numbered in string order. *)
+Inductive logcat := LError | LWarning.          (* 'ERROR' < 'WARNING' *)
+Definition cat_nat (c : logcat) : nat := match c with LError => 0 | LWarning => 1 end.
+Record erow := mkErow { er_model : id; er_cat : logcat; er_no : nat; er_msg : id }.
+Fixpoint enum_from {A} (i : nat) (l : list A) : list (nat * A) :=
+  match l with [] => [] | x :: tl => (i, x) :: enum_from (S i) tl end.
+Definition error_rows (entries : list (id * option (list (logcat * id)))) : list erow :=
+  flat_map (fun e => match snd e with
+                     | Some log => map (fun p => mkErow (fst e) (fst (snd p)) (fst p) (snd (snd p))) (enum_from 0 log)
+                     | None => [] end) entries.
+Definition erow_lt (a b : erow) : bool :=
+  match Pos.compare (er_model a) (er_model b) with
+  | Lt => true | Gt => false
+  | Eq => match Nat.compare (cat_nat (er_cat a)) (cat_nat (er_cat b)) with
+          | Lt => true | Gt => false | Eq => Nat.ltb (er_no a) (er_no b) end
+  end.
+Fixpoint ins_erow (x : erow) (l : list erow) : list erow :=
+  match l with [] => [x] | y :: tl => if erow_lt y x then y :: ins_erow x tl else x :: l end.
+Definition summarize_errors (entries : list (id * option (list (logcat * id)))) : list erow :=
+  fold_right ins_erow [] (error_rows entries).
+
 (* ---- comparison *)
 Record scase := mkScase { sc_all : bool; sc_entries : list (option (id * option sres)); sc_obs : res (list srow) }.
+Record ecase := mkEcase { ec_entries : list (id * option (list (logcat * id))); ec_obs : list erow }.
 
 Definition oq_eqb (a b : option Q) : bool :=
   match a, b with Some x, Some y => Qeq_bool x y | None, None => true | _, _ => false end.
@@ -131,7 +165,8 @@ Fixpoint params_eqb (a b : list (id * option Q * option Q * option Q)) : bool :=
 Definition srow_eqb (a b : srow) : bool :=
   Pos.eqb (sr_name a) (sr_name b) && onat_eqb (sr_step a) (sr_step b) && obool_eqb (sr_evaluation a) (sr_evaluation b)
   && Bool.eqb (sr_minsucc a) (sr_minsucc b) && Nat.eqb (sr_nerr a) (sr_nerr b) && Nat.eqb (sr_nwarn a) (sr_nwarn b)
-  && oq_eqb (sr_ofv a) (sr_ofv b) && params_eqb (sr_params a) (sr_params b).
+  && oq_eqb (sr_ofv a) (sr_ofv b) && params_eqb (sr_params a) (sr_params b)
+  && oq_eqb (sr_runtime_total a) (sr_runtime_total b) && oq_eqb (sr_est_runtime a) (sr_est_runtime b).
 Fixpoint srows_eqb (a b : list srow) : bool :=
   match a, b with [], [] => true | x :: a', y :: b' => srow_eqb x y && srows_eqb a' b' | _, _ => false end.
 
@@ -141,3 +176,10 @@ Definition sverdict (c : scase) : list nat :=
   | Err EValue, Err EValue | Err EKey, Err EKey | Err EInternal, Err EInternal => []
   | _, _ => [9]
   end.
+
+Definition erow_eqb (a b : erow) : bool :=
+  Pos.eqb (er_model a) (er_model b) && Nat.eqb (cat_nat (er_cat a)) (cat_nat (er_cat b)) && Nat.eqb (er_no a) (er_no b)
+  && Pos.eqb (er_msg a) (er_msg b).
+Fixpoint erows_eqb (a b : list erow) : bool :=
+  match a, b with [], [] => true | x :: a', y :: b' => erow_eqb x y && erows_eqb a' b' | _, _ => false end.
+Definition everdict (c : ecase) : list nat := if erows_eqb (summarize_errors (ec_entries c)) (ec_obs c) then [] else [9].
